@@ -111,6 +111,13 @@ func litFields(al *ssa.Alloc) (fields map[string][]ssa.Value, whole []ssa.Value)
 			}
 		}
 	}
+	// a field copied from a field of another local literal (`d := decl{name: x.Name}; T{Name: d.name}`,
+	// what an intermediate parameter struct leaves behind once its method is inlined) is that literal's value
+	for name, vs := range fields {
+		for i, v := range vs {
+			fields[name][i] = throughLiteral(v, 3)
+		}
+	}
 	// a single whole assignment that copies another literal of the same function (what a constructor
 	// helper leaves behind once inlined: `tmp := T{...}; *lit = tmp`) and no field store of its own: the
 	// content is that literal's
@@ -137,6 +144,48 @@ func litFields(al *ssa.Alloc) (fields map[string][]ssa.Value, whole []ssa.Value)
 		}
 	}
 	return
+}
+
+// throughLiteral: v = lit.f read from a local literal (or a copy of one) whose field f is set exactly
+// once, before the read: the value stored there.
+func throughLiteral(v ssa.Value, depth int) ssa.Value {
+	if depth == 0 {
+		return v
+	}
+	ld, ok := v.(*ssa.UnOp)
+	if !ok || ld.Op != token.MUL {
+		return v
+	}
+	fa, ok := ld.X.(*ssa.FieldAddr)
+	if !ok {
+		return v
+	}
+	src, ok := fa.X.(*ssa.Alloc)
+	if !ok || src.Parent() != ld.Parent() {
+		return v
+	}
+	_, fname, _ := ir.FieldAddr(fa)
+	fields, whole := litFields(src)
+	if len(whole) != 0 || len(fields[fname]) != 1 {
+		return v
+	}
+	// the single store precedes the read
+	for _, u := range *src.Referrers() {
+		if fa2, isFA := u.(*ssa.FieldAddr); isFA {
+			if _, n2, _ := ir.FieldAddr(fa2); n2 != fname {
+				continue
+			}
+			for _, uu := range *fa2.Referrers() {
+				if st, isSt := uu.(*ssa.Store); isSt && st.Addr == ssa.Value(fa2) {
+					before := st.Block() == ld.Block() && ir.IndexIn(st) < ir.IndexIn(ld) || st.Block() != ld.Block() && st.Block().Dominates(ld.Block())
+					if !before {
+						return v
+					}
+				}
+			}
+		}
+	}
+	return throughLiteral(fields[fname][0], depth-1)
 }
 
 func isZeroConst(v ssa.Value) bool {
@@ -616,8 +665,10 @@ func sameLoad(a, b ssa.Value) bool {
 		return false
 	}
 	if al, isAl := ba.(*ssa.Alloc); isAl {
-		fields, _ := litFields(al)
-		return len(fields[fa]) == 0
+		if fields, _ := litFields(al); len(fields[fa]) == 0 {
+			return true
+		}
+		// stored somewhere: equal all the same when no store can run between the two reads (below)
 	}
 	// any base: the field must not be stored to anywhere in the function
 	ia, ok := a.(ssa.Instruction)
